@@ -28,6 +28,8 @@ def main(argv=None):
     try:
         if a.replay:
             return mod.replay(a.replay)
+        import shutil
+        shutil.rmtree(os.path.join(core.ROOT, "replays", pid), ignore_errors=True)
         chk = core.Check(pid, a.tier, seed, a.jobs)
         mod.run(chk)
         return chk.finish(write_ledger=a.write_ledger)
